@@ -4,12 +4,13 @@ CONSTANTS NCells = 12
  CellBytes = 256
  Tails = {0, 17}
  Subs = {0, 16}
- Engines = {"otfad", "bee", "iee"}
+ Engines = {"otfad", "iee"}
 SPECIFICATION Spec
 INVARIANT CellsPartition
 INVARIANT OwnerUnique
 INVARIANT EngineLocal
 INVARIANT AddrOK
+INVARIANT ShrOK
 INVARIANT Finished
 INVARIANT CutsInside
 INVARIANT WalkAligned
